@@ -53,7 +53,16 @@ pub fn run(ctx: &Ctx) -> i32 {
                 1 | 2 => (Profile::conforming(), Some(ALL_INJECT[rng.below(ALL_INJECT.len())])),
                 _ => (Profile::wild_surface(), None),
             };
-            let g = gen::generate(&mut rng, &prof, inject);
+            let mut g = gen::generate(&mut rng, &prof, inject);
+            if k % 6 == 5 {
+                // a program full of boundary immediates: the notation of a number must not matter
+                let s = crate::shapes::literal_family(&mut rng);
+                acc.note("shapes", s.name);
+                g.prog = s.prog;
+                g.base = g.prog.clone();
+                g.site = None;
+                g.funcs.clear();
+            }
             let base_printed = print(&g.prog, &Style::base(), &mut Rng::new(1));
             let base_case = Case { g: g.clone(), printed: base_printed };
             let Ok(a0) = analyze(&base_case.printed.text) else {
